@@ -5,6 +5,8 @@ import rules_effects  # noqa: F401
 import rules_conc  # noqa: F401
 import rules_guard  # noqa: F401
 import rules_iter  # noqa: F401
+import rules_state  # noqa: F401
+import rules_arith  # noqa: F401
 
 COMMON_ASSUME = [
     "clang 14 front end parses /repo as g++ 12 compiles it (same flags, -std=gnu++17, -UNDEBUG)",
@@ -48,6 +50,61 @@ PROPS = {
         "not_decided": ["backward search, LF-walk and the position-to-ID mapping through the separator bitmap (value-level): the core of the property"],
         "assumptions": COMMON_ASSUME,
     },
+    "C01": {
+        "rules": ["R-STATE", "R-INITCOVER", "R-MIRROR", "R-IDGUARD", "R-SELECTRANGE"],
+        "explanation": "The clause `for the freshly built object and the reloaded one alike` is decided structurally: for every kind and both "
+                       "creation paths, every field read by a query on an object of a class that path instantiates (rapid type analysis, virtual "
+                       "calls resolved to final overriders of instantiated classes) is assigned by code reachable from that creation path, pointer "
+                       "fields are not left NULL where operations dereference them unconditionally, and byte-indexed tables are filled over their "
+                       "whole extent. Image/loader agreement (R-MIRROR) carries the state across save/load.",
+        "decided": ["built/loaded state parity for all 13 kinds x 2 creation paths (R-STATE)", "full initialisation of byte-indexed tables (R-INITCOVER)",
+                    "image carries every field load needs (R-MIRROR)", "extract range guard (R-IDGUARD)"],
+        "not_decided": ["that decoding inverts encoding for every string (Hu-Tucker, Huffman, Re-Pair, DAC, rank/select values)", "binary-search correctness",
+                        "HHTFC / RPHTFC mis-decode small inputs even when reloaded (seen by triage probes replays/t_roundtrip.cpp; value-level, outside every rule)"],
+        "assumptions": COMMON_ASSUME,
+    },
+    "C07": {
+        "rules": ["R-STATE", "R-INITCOVER", "R-EXTENT", "R-KILLUSE", "R-DANGLING", "R-ALPHAGUARD", "R-DEDUP", "R-IDGUARD", "R-SHIFT", "R-CLAMP", "R-ZEROFILL"],
+        "explanation": "Structural preconditions of memory safety, each a necessary condition with confirmed instances: no operation consults state the "
+                       "creation path never set, saved extents equal allocated extents, nothing reachable from a dictionary is freed by an operation or "
+                       "left dangling by a loader, pattern bytes are range-checked before indexing, duplicate iterators have their sentinel, ids are "
+                       "guarded, shifts stay below the operand width over the whole legal domain, bucket size 0/1 cannot reach the arithmetic.",
+        "decided": ["no uninitialised/NULL state is consulted (R-STATE, R-INITCOVER, R-ZEROFILL)", "no over-read at save (R-EXTENT)",
+                    "no use after free across API histories, no dangling loader state (R-KILLUSE, R-DANGLING)",
+                    "index guards: alphabet, id range, sentinel (R-ALPHAGUARD, R-IDGUARD, R-DEDUP)", "no undefined shift (R-SHIFT)", "clamped bucket size (R-CLAMP)"],
+        "not_decided": ["all index arithmetic over decoded data (bucket scans, chunk decoding with b_remain, expandRule recursion depth, scratch buffers sized "
+                        "from maxlength/maxcomplength), buffer growth estimates, suffix sorting on tiny inputs, termination: a pass means the structural "
+                        "preconditions hold, not that the library is memory safe"],
+        "assumptions": COMMON_ASSUME,
+    },
+    "C12": {
+        "rules": ["R-CLAMP", "R-PARAMFLOW", "R-DISPATCH"],
+        "explanation": "The last sentence of the property (bucket size below 2 is replaced by 2) is decided by def-use on the five front-coding constructors; "
+                       "thread_count and cut_size are shown to flow only into the pool size / the cut decision; every accepted hash load option has a loader.",
+        "decided": ["raw bucket size never used after the clamp (R-CLAMP)", "thread_count -> pool only, cut_size -> cut decision and header only (R-PARAMFLOW)",
+                    "Hash::load has an arm for each of the three representations the kind loaders accept (R-DISPATCH)"],
+        "not_decided": ["equality of answers across bucket sizes / overheads / samplings (metamorphic, value-level)"],
+        "assumptions": COMMON_ASSUME,
+    },
+    "C15": {
+        "rules": ["R-METADATA", "R-MIRROR"],
+        "explanation": "Counter discipline in every building constructor (CFG must-pass-through between consecutive reads of the input) and image/loader "
+                       "agreement for the two header fields.",
+        "decided": ["each consumed string is counted exactly once; maxlength raised under a comparison with the length just read; derived kinds copy both (R-METADATA)",
+                    "both fields are written and read back with equal width and position (R-MIRROR)"],
+        "not_decided": ["that the length reported by the input iterator is the string's length (trusted)"],
+        "assumptions": COMMON_ASSUME,
+    },
+    "C17": {
+        "rules": ["R-SHIFT", "R-MIRROR", "R-EXTENT", "R-ZEROFILL"],
+        "explanation": "For the packed integer array the shift amounts of get_field/set_field/maxVal are evaluated from the source expressions over the whole "
+                       "finite domain (width 1..64 x in-word offset 0..63) under the guards that dominate each shift: exact. Save/load agreement and "
+                       "allocation extents for LogSequence, DAC_VLS, DAC_BVLS; zero-fill before read-modify-write packing.",
+        "decided": ["no shift by >= operand width for any width 1..64 and offset, incl. fields straddling a word (R-SHIFT)",
+                    "LogSequence / DAC_VLS / DAC_BVLS survive save/load structurally (R-MIRROR, R-EXTENT)", "packed arrays are filled before set_field/bitset (R-ZEROFILL)"],
+        "not_decided": ["round trip of values, DAC level layout, VByte codec value round trip (value-level)"],
+        "assumptions": COMMON_ASSUME,
+    },
     "C13": {
         "rules": ["R-OUTLEN", "R-WINDOW", "R-DEDUP", "R-STUB", "R-QUERYPURE"],
         "explanation": "Iterator protocol rules: every next() stores the length on every path to a non-null return and advances a field that "
@@ -61,7 +118,7 @@ PROPS = {
         "assumptions": COMMON_ASSUME,
     },
     "C06": {
-        "rules": ["R-MIRROR", "R-EXTENT", "R-TAGS", "R-DISPATCH", "R-PADDING"],
+        "rules": ["R-MIRROR", "R-EXTENT", "R-TAGS", "R-DISPATCH", "R-PADDING", "R-STATE", "R-SELECTRANGE"],
         "explanation": "Writer/reader agreement decided statically for every save/load pair in the cone of classes the 13 kinds persist "
                        "(rapid type analysis from their constructors) plus libcds classes named in C19: both halves are abstracted to "
                        "ordered trees of stream elements whose sizes are symbolic expressions over earlier image values, and compared "
@@ -71,14 +128,16 @@ PROPS = {
                     "saved byte count equals allocated byte count in every building constructor (R-EXTENT)",
                     "kind tags: distinct, checked before anything else, generic loader arm per kind (R-TAGS)",
                     "libcds/Hash family dispatchers: arm per persisted class, tag equals the tag its save writes, peek restores position, no other seeking (R-DISPATCH)",
-                    "no padded type is moved as raw bytes (R-PADDING)"],
+                    "no padded type is moved as raw bytes (R-PADDING)",
+                    "every field an operation reads on a loaded object is assigned on the load path (R-STATE)",
+                    "the compact hash loaders enumerate occupied cells over 1..n like their sibling (R-SELECTRANGE)"],
         "not_decided": ["state recomputed at load (RRR sampling, HashBdh/HashBBdh compaction, DecodingTree::buildTree) equals the built state (value-level)",
                         "counts that depend on container sizes not present in the image are compared structurally only (listed as undecided in the evidence)",
                         "the generic loader's absolute seekg(0) assumes the image starts the stream (outside the self-delimiting clause, which is stated for a kind's own loader)"],
         "assumptions": COMMON_ASSUME,
     },
     "C08": {
-        "rules": ["R-SAVEPURE", "R-KILLUSE", "R-DANGLING", "R-TAGSELF", "R-RESAVE", "R-EXTENT", "R-PADDING"],
+        "rules": ["R-SAVEPURE", "R-KILLUSE", "R-DANGLING", "R-TAGSELF", "R-RESAVE", "R-EXTENT", "R-PADDING", "R-ZEROFILL", "R-NONDET", "R-STATE"],
         "explanation": "Interprocedural effect analysis (MOD/FREE summaries over access-path regions with pointer roots, fixpoint over "
                        "the call graph, virtual calls by class hierarchy) shows that the call closure of every save in the persisted cone "
                        "writes only the stream and frees nothing; tag identity, element-to-field restoration and extent/padding rules show "
@@ -87,7 +146,9 @@ PROPS = {
                     "no query/save frees dictionary memory; no loader leaves a used field dangling: histories save;save, load;save (R-KILLUSE)",
                     "the tag a save writes is the kind's own on every creation path (R-TAGSELF)",
                     "every image element is restored into the field save writes it from (R-RESAVE)",
-                    "no over-read at save (R-EXTENT), no padding bytes in the image (R-PADDING)"],
+                    "no over-read at save (R-EXTENT), no padding bytes in the image (R-PADDING)",
+                    "bit-packed arrays are filled before read-modify-write stores (R-ZEROFILL); no clock/random/pid dependence on build or save paths (R-NONDET)",
+                    "save on a loaded object reads only state the loader set (R-STATE)"],
         "not_decided": ["that every element of every saved array was initialised by the builder (value/coverage reasoning per loop)",
                         "byte equality of two builds from the same input (needs R-NONDET over the builders; value-level beyond that)"],
         "assumptions": COMMON_ASSUME + ["pointer roots are tracked flow-insensitively per function; a store through a pointer loaded from a dictionary field is attributed to that field"],
@@ -109,13 +170,14 @@ PROPS = {
         "assumptions": COMMON_ASSUME + ["new/malloc are thread-safe; std streams are internally synchronised"],
     },
     "C10": {
-        "rules": ["R-CV", "R-ONCE", "R-LOCKSET", "R-LOCKORDER"],
+        "rules": ["R-CV", "R-ONCE", "R-DRAIN", "R-LOCKSET", "R-LOCKORDER"],
         "explanation": "Lock-set dataflow on clang CFGs (RAII guards: gen at construction, kill at scope end/unlock; interprocedural "
                        "must-held = intersection over call sites) with reference members resolved to the pool's objects. Decides the monitor "
                        "discipline that makes lost wake-ups impossible, exactly-once removal and invocation of tasks, and a global lock order.",
         "decided": ["every update of predicate state (queue, stop flags, completion counter) holds the waiter's mutex and is followed by notify on all paths (R-CV)",
                     "pop only in Worker::run, under the shared mutex held since the non-empty test; task invoked exactly once, outside the lock; thread started last (R-ONCE)",
-                    "queue / stop flag accesses share a lock (R-LOCKSET)", "acyclic lock order, no self-lock (R-LOCKORDER)"],
+                    "queue / stop flag accesses share a lock (R-LOCKSET)", "acyclic lock order, no self-lock (R-LOCKORDER)",
+                    "every exit of the worker loop has observed stopped and an empty queue (R-DRAIN)"],
         "not_decided": ["nothing temporal is model-checked (different technique family); OS scheduler fairness assumed"],
         "assumptions": COMMON_ASSUME + ["object identity is abstracted to the class (one queue / shared mutex per pool)"],
     },
